@@ -85,13 +85,13 @@ RepTime(s, d, g, dir) ==
     [] s.k = "int" /\ s.lt = "date" ->
          /\ d.k = "long"
          /\ IF g.sod = 0 /\ g.ns = 0 THEN d.b = IntBytes8(g.days) /\ (dir = "r" => g.off = 0)
-            ELSE dir = "w" /\ d.b \in {IntBytes8(g.days), IntBytes8(g.days + 1)}       \* not a whole day: floor or truncation toward zero
+            ELSE dir = "w" /\ d.b = IntBytes8(g.days)        \* not a whole day: the day the instant falls in (floor; what decodes back to it at day resolution)
     [] s.k = "long" ->
          LET u == UnitOf(s.lt)
              f == StoredFloor(g, u) IN
          /\ d.k = "long" /\ f # <<>>
          /\ IF ExactIn(g, u) THEN d.b = f /\ (dir = "r" => g.off = 0)
-            ELSE dir = "w" /\ d.b \in {f, Plus1(f)}
+            ELSE dir = "w" /\ d.b = f                        \* floor: the stored value decodes to the instant truncated to the unit (time.Truncate, UnixMilli/UnixMicro)
     [] OTHER -> FALSE
 
 RECURSIVE Rep(_, _, _, _, _), RepNN(_, _, _, _), RepFields(_, _, _, _)
